@@ -163,7 +163,7 @@ def build_function(rng, name, nsamples=None, named=None, stationary_at=None):
             x = last_triplet[0]
             kinds.append("same_triplet")
         elif r < 0.72 and func.list_of_points:
-            # same Point objects x and g, another function value (matters for tuple == in BlockSmooth)
+            # same Point objects x and g, another function value (BlockSmooth once compared the triplets with ==)
             x0, g0, _ = rng.choice(func.list_of_points)
             last_triplet = (x0, g0, rand_expr(rng, xleaves, leaves))
             func.add_point(last_triplet)
